@@ -38,6 +38,26 @@ def cases(tier: str, seed: int) -> list[dict]:
         for mode, d, i in itertools.product(['race', 'fallback'], DIRECT, INDIRECT):
             out.append({'kind': 'request', 'seed': seed, 'n': len(out), 'cell': {'mode': mode, 'direct': d, 'indirect': i,
                                                                                   'cancel': None}})
+    # both attempts succeed within the same virtual instant: everything has zero latency, the scripted peer
+    # pierces after k zero-time yields (k enumerated), so every relative order of the two outcomes at loop-step
+    # granularity occurs
+    for typ in ('P', 'D', 'F'):
+        for j in range(0, 40):
+            out.append({'kind': 'request', 'seed': seed, 'n': len(out),
+                        'cell': {'mode': 'race', 'direct': 'fast', 'indirect': 'pierce-fast', 'cancel': None, 'typ': typ,
+                                 'same_instant': True, 'i_yields': 0, 'd_yields': j, 'ports': 'clear',
+                                 'prefer_obf': False}})
+    # rendezvous: one path waits at a known phase for the other one, then a swept number of loop steps
+    for typ in ('P', 'F'):
+        for j in range(0, 16):
+            out.append({'kind': 'request', 'seed': seed, 'n': len(out),
+                        'cell': {'mode': 'race', 'direct': 'fast', 'indirect': 'pierce-fast', 'cancel': None, 'typ': typ,
+                                 'same_instant': True, 'rendezvous': 'direct-waits-for-pierce-accept', 'd_yields': j,
+                                 'i_yields': 0, 'ports': 'clear', 'prefer_obf': False}})
+            out.append({'kind': 'request', 'seed': seed, 'n': len(out),
+                        'cell': {'mode': 'race', 'direct': 'fast', 'indirect': 'pierce-fast', 'cancel': None, 'typ': typ,
+                                 'same_instant': True, 'rendezvous': 'pierce-waits-for-direct-connect', 'd_yields': 0,
+                                 'i_yields': j, 'ports': 'clear', 'prefer_obf': False}})
     n_rand = 400 if tier == 'quick' else 9000
     for _ in range(n_rand):
         out.append({'kind': 'request', 'seed': seed, 'n': len(out), 'cell': None})
